@@ -1049,12 +1049,32 @@ def static_attr_access(fn_node) -> int:
     """``getattr(o, "name")`` -> ``o.name``; the statement ``setattr(o, "name", v)`` -> ``o.name = v`` (literal names)."""
     count = [0]
 
+    def fold(e):
+        """'orig_' + 'lb' / f"orig_{'lb'}" -> 'orig_lb' (attribute names assembled from constants)"""
+        if isinstance(e, ast.BinOp) and isinstance(e.op, ast.Add):
+            l, r = fold(e.left), fold(e.right)
+            if isinstance(l, ast.Constant) and isinstance(r, ast.Constant) and isinstance(l.value, str) and isinstance(r.value, str):
+                return ast.copy_location(ast.Constant(value=l.value + r.value), e)
+        if isinstance(e, ast.JoinedStr):
+            parts = []
+            for v in e.values:
+                if isinstance(v, ast.Constant) and isinstance(v.value, str):
+                    parts.append(v.value)
+                elif isinstance(v, ast.FormattedValue) and isinstance(v.value, ast.Constant) and isinstance(v.value.value, str) and v.format_spec is None and v.conversion == -1:
+                    parts.append(v.value.value)
+                else:
+                    return e
+            return ast.copy_location(ast.Constant(value="".join(parts)), e)
+        return e
+
     def ident(e):
         return isinstance(e, ast.Constant) and isinstance(e.value, str) and e.value.isidentifier()
 
     class G(ast.NodeTransformer):
         def visit_Call(self, node):
             self.generic_visit(node)
+            if isinstance(node.func, ast.Name) and node.func.id in ("getattr", "setattr") and len(node.args) >= 2:
+                node.args[1] = fold(node.args[1])
             if isinstance(node.func, ast.Name) and node.func.id == "getattr" and len(node.args) == 2 and not node.keywords and ident(node.args[1]):
                 count[0] += 1
                 return ast.copy_location(ast.Attribute(value=node.args[0], attr=node.args[1].value, ctx=ast.Load()), node)
@@ -1240,6 +1260,161 @@ def unroll_built_list_loops(fn_node) -> int:
                 blk[:] = keep_before + new + blk[li + 1:]
                 count += 1
                 break
+    if count:
+        ast.fix_missing_locations(fn_node)
+    return count
+
+
+def _const_key_dicts(fn_node) -> Dict[str, List[str]]:
+    """locals bound exactly once, to a dict literal with constant string keys, and otherwise only subscripted with constants
+    / the variable of a loop over their ``.items()`` / iterated with ``.items()``: records in dict clothing"""
+    out: Dict[str, List[str]] = {}
+    stores: Dict[str, list] = {}
+    parents = {}
+    for p_ in ast.walk(fn_node):
+        for c_ in ast.iter_child_nodes(p_):
+            parents[id(c_)] = p_
+    for n in ast.walk(fn_node):
+        if isinstance(n, ast.Name) and not isinstance(n.ctx, ast.Load):
+            stores.setdefault(n.id, []).append(n)
+    for name, sts in stores.items():
+        if len(sts) != 1:
+            continue
+        a = parents.get(id(sts[0]))
+        if not (isinstance(a, ast.Assign) and len(a.targets) == 1 and a.targets[0] is sts[0] and isinstance(a.value, ast.Dict) and a.value.keys
+                and all(isinstance(k, ast.Constant) and isinstance(k.value, str) and k.value.isidentifier() for k in a.value.keys)):
+            continue
+        keys = [k.value for k in a.value.keys]
+        if len(set(keys)) != len(keys):
+            continue
+        ok = True
+        for n in ast.walk(fn_node):
+            if not (isinstance(n, ast.Name) and n.id == name and isinstance(n.ctx, ast.Load)):
+                continue
+            par = parents.get(id(n))
+            if isinstance(par, ast.Subscript) and par.value is n:
+                sl = par.slice
+                if isinstance(sl, ast.Constant) and sl.value in keys:
+                    continue
+                if isinstance(sl, ast.Name):
+                    # D[k] inside ``for k, v in D.items()``
+                    lp = par
+                    found = False
+                    while id(lp) in parents:
+                        lp = parents[id(lp)]
+                        if isinstance(lp, ast.For) and isinstance(lp.target, ast.Tuple) and len(lp.target.elts) == 2 and isinstance(lp.target.elts[0], ast.Name) \
+                                and lp.target.elts[0].id == sl.id and isinstance(lp.iter, ast.Call) and isinstance(lp.iter.func, ast.Attribute) and lp.iter.func.attr == "items" \
+                                and isinstance(lp.iter.func.value, ast.Name) and lp.iter.func.value.id == name:
+                            found = True
+                            break
+                    if found:
+                        continue
+                ok = False
+                break
+            if isinstance(par, ast.Attribute) and par.attr == "items" and isinstance(parents.get(id(par)), ast.Call) and isinstance(parents.get(id(parents[id(par)])), ast.For) \
+                    and parents[id(parents[id(par)])].iter is parents[id(par)]:
+                continue
+            ok = False
+            break
+        if ok:
+            out[name] = keys
+    return out
+
+
+def unroll_const_dict_loops(fn_node) -> int:
+    """``for k, v in D.items(): body`` over a record-like dict (see _const_key_dicts): one copy of the body per key with
+    k the key constant and v a per-copy local initialised from ``D[key]`` (the body may update ``D[k]``)."""
+    dicts = _const_key_dicts(fn_node)
+    if not dicts:
+        return 0
+    count = 0
+    taken_names = {n.id for n in ast.walk(fn_node) if isinstance(n, ast.Name)}
+    for node in ast.walk(fn_node):
+        for fld in ("body", "orelse", "finalbody"):
+            blk = getattr(node, fld, None)
+            if not (isinstance(blk, list) and blk and isinstance(blk[0], ast.stmt)):
+                continue
+            i = 0
+            while i < len(blk):
+                st = blk[i]
+                i += 1
+                if not (isinstance(st, ast.For) and not st.orelse and isinstance(st.iter, ast.Call) and isinstance(st.iter.func, ast.Attribute) and st.iter.func.attr == "items"
+                        and isinstance(st.iter.func.value, ast.Name) and st.iter.func.value.id in dicts and isinstance(st.target, ast.Tuple) and len(st.target.elts) == 2
+                        and all(isinstance(e, ast.Name) for e in st.target.elts)):
+                    continue
+                D = st.iter.func.value.id
+                kvar, vvar = st.target.elts[0].id, st.target.elts[1].id
+                body_nodes = [n for s_ in st.body for n in ast.walk(s_)]
+                if len(st.body) > 8 or any(isinstance(n, (ast.Break, ast.Continue, ast.Return, ast.Lambda, ast.FunctionDef, ast.Yield)) for n in body_nodes):
+                    continue
+                if any(isinstance(n, ast.Name) and n.id == kvar and not isinstance(n.ctx, ast.Load) for n in body_nodes):
+                    continue
+                # loop variables dead outside this loop (other loops may reuse the names: they re-bind them first)
+                temps = _body_temporaries(fn_node, st)
+                new = []
+                for k_i, key in enumerate(dicts[D]):
+                    own = f"{vvar}__u{count + 1}_{k_i + 1}"
+                    while own in taken_names:
+                        own += "_"
+                    taken_names.add(own)
+                    body_k = copy.deepcopy(st.body)
+                    ren = {vvar: own}
+                    for t_ in temps:
+                        nn = f"{t_}__u{count + 1}_{k_i + 1}"
+                        while nn in taken_names:
+                            nn += "_"
+                        taken_names.add(nn)
+                        ren[t_] = nn
+
+                    class Sub(ast.NodeTransformer):
+                        def visit_Name(self, n2):
+                            if n2.id == kvar and isinstance(n2.ctx, ast.Load):
+                                return ast.copy_location(ast.Constant(value=key), n2)
+                            return n2
+
+                    body_k = [Sub().visit(s_) for s_ in body_k]
+                    _rename_names(body_k, ren)
+                    init = ast.Assign(targets=[ast.Name(id=own, ctx=ast.Store())], value=ast.Subscript(value=ast.Name(id=D, ctx=ast.Load()), slice=ast.Constant(value=key), ctx=ast.Load()))
+                    new += [ast.copy_location(init, st)] + body_k
+                holder = ast.Module(body=new, type_ignores=[])
+                static_attr_access(holder)
+                new = holder.body
+                blk[i - 1:i] = new
+                i += len(new) - 1
+                count += 1
+    if count:
+        ast.fix_missing_locations(fn_node)
+    return count
+
+
+def flatten_const_dicts(fn_node) -> int:
+    """a record-like dict (see _const_key_dicts) that is no longer iterated becomes one local per key."""
+    dicts = _const_key_dicts(fn_node)
+    count = 0
+    for name, keys in dicts.items():
+        if any(isinstance(n, ast.Attribute) and isinstance(n.value, ast.Name) and n.value.id == name for n in ast.walk(fn_node)):
+            continue  # still iterated
+        if any(isinstance(n, ast.Subscript) and isinstance(n.value, ast.Name) and n.value.id == name and not isinstance(n.slice, ast.Constant) for n in ast.walk(fn_node)):
+            continue
+        taken = {n.id for n in ast.walk(fn_node) if isinstance(n, ast.Name)}
+        fld = {k: f"{name}__{k}" for k in keys}
+        if any(v in taken for v in fld.values()):
+            continue
+
+        class Rw(ast.NodeTransformer):
+            def visit_Subscript(self, node):
+                self.generic_visit(node)
+                if isinstance(node.value, ast.Name) and node.value.id == name and isinstance(node.slice, ast.Constant) and node.slice.value in fld:
+                    return ast.copy_location(ast.Name(id=fld[node.slice.value], ctx=node.ctx), node)
+                return node
+
+            def visit_Assign(self, node):
+                if len(node.targets) == 1 and isinstance(node.targets[0], ast.Name) and node.targets[0].id == name and isinstance(node.value, ast.Dict):
+                    return [ast.copy_location(ast.Assign(targets=[ast.Name(id=fld[k.value], ctx=ast.Store())], value=self.visit(v)), node) for k, v in zip(node.value.keys, node.value.values)]
+                return self.generic_visit(node)
+
+        Rw().visit(fn_node)
+        count += 1
     if count:
         ast.fix_missing_locations(fn_node)
     return count
@@ -1902,6 +2077,11 @@ def normalise(prog: Program) -> Tuple[Program, List[str]]:
                 log.append(f"{fn.qualname} ({nt} test(s) of a just-assigned None / tuple flag threaded into the assigning branches)")
             if static_attr_access(fn.node):
                 changed_alias = True
+            ncd = unroll_const_dict_loops(fn.node)
+            ncd += flatten_const_dicts(fn.node)
+            if ncd:
+                changed_alias = True
+                log.append(f"{fn.qualname} (record-like dict with constant keys: {ncd} loop(s) unrolled / replaced by locals)")
             nbl = unroll_built_list_loops(fn.node)
             if nbl:
                 changed_alias = True
